@@ -9,7 +9,7 @@
 // is its position in the pool (assigned at the hand-off) and its single step is the drop of that CounterTask,
 // executed by the controller itself.
 // Output: one record per executed step
-//   <tid>:<label>><next label>:b<blocking>t<term>d<blocking_done>[:D<done seen by the blocker>][:H<task>][:R<task>]
+//   <tid>:<label>><next label>:b<blocking>t<term>d<blocking_done>[:A1 = start_blocking returned][:D<done seen by the blocker>][:H<task>][:R<task>]
 // then " | hand=.. redisp=.. th=<label of every thread> fin=<all finished>".
 use crossbeam_channel::{unbounded, Receiver, RecvTimeoutError, Sender};
 use parking_lot::Mutex;
@@ -371,6 +371,7 @@ fn run(toks: &[&str]) -> String {
                 }
                 Spec::Blocker(polls) => {
                     let h = ctrl2.start_blocking();
+                    set_note("A1"); // the handle exists from here on
                     let mut n = polls;
                     while n > 0 {
                         let d = ctrl2.blocking_done();
